@@ -239,6 +239,8 @@ type OpStore struct {
 	// Permute, when set, chooses the order Get returns operations in.
 	Permute func(n int) []int
 	PutN    int
+	// OnPut is called (inline) after a successful Put with the stored batch.
+	OnPut func(ops []*operation.AnchoredOperation)
 }
 
 // NewOpStore creates an empty store.
@@ -272,6 +274,10 @@ func (s *OpStore) Put(ops []*operation.AnchoredOperation) error {
 
 	s.Puts = append(s.Puts, cp)
 	s.K.Tr.Logf("  %s store.Put#%d %d ops", s.K.Cur(), n, len(ops))
+
+	if s.OnPut != nil {
+		s.K.Inline(func() { s.OnPut(cp) })
+	}
 
 	return nil
 }
